@@ -1,10 +1,19 @@
 package reflection
 
 import (
+	"errors"
 	"fmt"
 	"reflect"
 	"runtime/debug"
 )
+
+// ConstructionError is implemented by errors reporting that a registered service
+// could not be constructed (its constructor failed, panicked, or could not be given
+// its arguments) - as opposed to a service that is simply not there.
+type ConstructionError interface {
+	error
+	ConstructionFailed()
+}
 
 // ParamObjectBuilder builds parameter objects (In structs) with resolved dependencies.
 type ParamObjectBuilder struct {
@@ -69,7 +78,10 @@ func (b *ParamObjectBuilder) BuildParamObject(
 		// Resolve dependency for this field
 		fieldValue, err := b.resolveFieldDependency(&field, tagInfo, resolver)
 		if err != nil {
-			if !tagInfo.Optional {
+			// Optional means "may be absent": a service that is registered but whose
+			// construction fails is still an error
+			var construction ConstructionError
+			if !tagInfo.Optional || errors.As(err, &construction) {
 				return reflect.Value{}, fmt.Errorf("failed to resolve field %s: %w", field.Name, err)
 			}
 			// Optional field - leave as zero value
